@@ -124,6 +124,11 @@ func c01Check(ctx *Ctx, idx int, cs coreCase) {
 			ctx.Rep.Fail(hx.Failure{Kind: "property-fails", Detail: "configuration " + alt.name + ": the gateway no longer starts: " + err.Error(), Case: full, Index: idx})
 			return
 		}
+		if alt.name == "cached-planner" && cs.Sibling != "" {
+			// another operation of the SAME document first: the cache must not confuse them
+			sib := "Sibling"
+			fed.Do(gw2, cs.Query, nil, &sib)
+		}
 		for rep := 0; rep < alt.reps; rep++ {
 			r2 := fed.Do(gw2, cs.Query, cs.Vars, cs.OpName)
 			if len(r2.Errors) > 0 || hx.Canon(toGeneric(r2.Data)) != hx.Canon(toGeneric(resp.Data)) {
@@ -304,7 +309,36 @@ func genCoreCase(r *hx.Rand, abstract, wild bool, kind string) (coreCase, bool) 
 	if op == nil {
 		return coreCase{}, false
 	}
-	return coreCase{FedSeed: seed, Abstract: abstract, Query: op.Query, Vars: op.Variables, OpName: op.OpName, Kind: kind, Features: op.Features}, true
+	cs := coreCase{FedSeed: seed, Abstract: abstract, Query: op.Query, Vars: op.Variables, OpName: op.OpName, Kind: kind, Features: op.Features}
+	// sometimes a document with two operations, selected by operationName
+	if !wild && r.Chance(1, 4) && op.OpName == nil && !strings.Contains(op.Query, "Sibling") {
+		so := fed.SafeOps()
+		so.NamedFrags, so.Variables, so.MaxDepth = false, false, 2
+		sib := fed.GenOp(r, cf.Merged.Schema, cf.F.Data, "query", so)
+		if sib != nil && sib.OpName == nil && strings.HasPrefix(strings.TrimSpace(sib.Query), "{") == strings.HasPrefix(strings.TrimSpace(sib.Query), "{") {
+			main := namedOperation(op.Query, kind, "Main")
+			sibQ := namedOperation(sib.Query, "query", "Sibling")
+			if main != "" && sibQ != "" {
+				name := "Main"
+				cs.Query, cs.OpName, cs.Sibling = sibQ+"\n"+main, &name, "Sibling"
+				cs.Features = append(cs.Features, "two-operations")
+			}
+		}
+	}
+	return cs, true
+}
+
+// namedOperation gives a generated single-operation document the operation name `name`
+// ("" if the text already carries a name).
+func namedOperation(q, kind, name string) string {
+	t := strings.TrimSpace(q)
+	switch {
+	case strings.HasPrefix(t, "{"):
+		return kind + " " + name + " " + t
+	case strings.HasPrefix(t, kind+" {"), strings.HasPrefix(t, kind+"("), strings.HasPrefix(t, kind+" ("):
+		return kind + " " + name + strings.TrimPrefix(t, kind)
+	}
+	return ""
 }
 
 func runC01(ctx *Ctx) error {
